@@ -76,6 +76,17 @@ BLOCKS = [
     ("html", ["<div>"]),
     ("hardbreak", ["aa\\", "bb"]),
     ("hardbreak-sp", ["aa  ", "bb"]),
+    # paragraphs that begin with an escaped block marker (the renderer decides per paragraph whether the escape stays)
+    ("p-esc-num", ["1\\. aa"]),
+    ("p-esc-dash", ["\\- aa"]),
+    ("p-esc-hash", ["\\# aa"]),
+    # ordered lists whose marker width changes inside the list, with a multi-block item after the change
+    ("ol-cross", ["9. a", "", "10. b", "", "    c"]),
+    ("ol-cross-nested", ["9. a", "10. b", "    - c"]),
+    ("ol-cross99", ["99. a", "100. b", "", "     c"]),
+    ("ul-item-code-indented", ["- a", "", "      x"]),
+    ("p-long", ["aa bb cc dd ee ff gg hh ii jj kk ll mm nn oo pp qq rr ss tt uu vv ww xx yy zz aa bb cc dd ee ff gg"]),
+    ("h1-long", ["# H aa bb cc dd ee ff gg hh ii jj kk ll mm nn oo pp qq rr ss tt uu vv ww xx yy zz aa bb cc dd ee ff gg"]),
 ]
 NAMES = [n for n, _ in BLOCKS]
 
@@ -84,7 +95,7 @@ def _class_rep(name):
     """Simplest block of the same family (used by the shrinking relation)."""
     for prefix, rep in (("ul", "ul"), ("ol", "ol"), ("task", "ul"), ("bq", "bq"), ("alert", "alert"), ("code", "code"),
                         ("table", "table"), ("hr", "hr-"), ("def", "def"), ("fn", "fn"), ("setext", "setext1"), ("h", "h1"),
-                        ("hardbreak", "hardbreak")):
+                        ("hardbreak", "hardbreak"), ("p-esc", "p-esc-num")):
         if name.startswith(prefix):
             return NAMES.index(rep)
     return 0
